@@ -7,6 +7,7 @@ from concurrent.futures import ThreadPoolExecutor
 VERIF = os.path.dirname(os.path.dirname(os.path.abspath(__file__)))
 SEEDED = os.path.join(VERIF, "seeded")
 tier = sys.argv[1] if len(sys.argv) > 1 and sys.argv[1] in ("quick", "thorough") else "quick"
+SEEDS = [int(x) for x in os.environ.get("MATRIX_SEEDS", "0").split(",")]
 names = [a for a in sys.argv[1:] if a not in ("quick", "thorough")] or sorted(d for d in os.listdir(SEEDED) if os.path.isdir(os.path.join(SEEDED, d)))
 EXTRA = {"C01-3": ["C12"], "C10-3": ["C12"], "C07-1": ["C04"], "C17-1": ["C02"], "C17-2": ["C03", "C02"], "C18-1": ["C01"], "C18-3": ["C01"],
          "C02-3": ["C03", "C17"], "C12-1": ["C10"], "C20-3": ["C18"], "C14-3": ["C12"],
@@ -33,7 +34,7 @@ EXTRA = {"C01-3": ["C12"], "C10-3": ["C12"], "C07-1": ["C04"], "C17-1": ["C02"],
          "C17-30": ["C04"], "C17-28": ["C02"], "C05-29": ["C01"], "C03-29": ["C01"], "C17-27": ["C07"],
          "C01-31": ["C12"], "C01-33": ["C12"], "C03-33": ["C17"], "C08-33": ["C17"], "C06-32": ["C05"], "C13-32": ["C09"], "C13-33": ["C14"],
          "C14-32": ["C12"], "C15-33": ["C17", "C12"], "C17-32": ["C02"], "C17-33": ["C07"], "C18-31": ["C20", "C12"], "C18-32": ["C15"],
-         "C18-33": ["C12"]}
+         "C18-33": ["C12"], "C12-28": ["C16"], "C12-29": ["C09"]}
 
 
 def run(name):
@@ -47,13 +48,17 @@ def run(name):
         if a.returncode != 0:
             res["error"] = "patch does not apply: " + a.stderr[-300:]
             return res
-        for q in [prop] + EXTRA.get(name, []):
-            env = dict(os.environ, VERIF_REPO=wt, VERIF_NO_EVIDENCE="1", VERIF_JOBS="6")
-            t0 = time.time()
-            p = subprocess.run([os.path.join(VERIF, "check"), q, tier], capture_output=True, text=True, env=env)
-            tags = [l.split(":")[1].strip() for l in p.stdout.split("\n") if l.startswith("violation in")]
-            res["checks"][q] = {"exit": p.returncode, "violation_lines": p.stdout.count("\nVIOLATION") + p.stdout.startswith("VIOLATION"),
-                                "tags": sorted(set(tags))[:8], "wall_s": round(time.time() - t0, 1)}
+        for vseed in SEEDS:
+            for q in [prop] + EXTRA.get(name, []):
+                env = dict(os.environ, VERIF_REPO=wt, VERIF_NO_EVIDENCE="1", VERIF_JOBS="6", VERIF_SEED=str(vseed), PYTHONHASHSEED="0")
+                t0 = time.time()
+                p = subprocess.run([os.path.join(VERIF, "check"), q, tier], capture_output=True, text=True, env=env)
+                tags = [l.split(":")[1].strip() for l in p.stdout.split("\n") if l.startswith("violation in")]
+                if vseed == SEEDS[0] or p.returncode == 1:
+                    res["checks"][q] = {"exit": p.returncode, "violation_lines": p.stdout.count("\nVIOLATION") + p.stdout.startswith("VIOLATION"),
+                                        "tags": sorted(set(tags))[:8], "wall_s": round(time.time() - t0, 1), "verif_seed": vseed}
+            if any(v["exit"] == 1 for v in res["checks"].values()):
+                break          # detected; further seeds of the quick tier are only tried for seeds that escaped so far
     finally:
         subprocess.run(["git", "-C", "/repo", "worktree", "remove", "--force", wt], capture_output=True)
     return res
